@@ -324,7 +324,8 @@ func (s *grpcServer) GetTree(in *pb.GetTreeRequest,
 		return grpc_status.Error(codes.DataLoss, err.Error())
 	}
 
-	err = s.fillDirectories(stream.Context(), &resp, &dir, errorPrefix)
+	ancestors := map[string]struct{}{in.RootDigest.Hash: {}}
+	err = s.fillDirectories(stream.Context(), &resp, &dir, errorPrefix, ancestors)
 	if err != nil {
 		return err
 	}
@@ -342,7 +343,16 @@ func (s *grpcServer) GetTree(in *pb.GetTreeRequest,
 
 // Attempt to populate `resp`. Return errors for invalid requests, but
 // otherwise attempt to return as many blobs as possible.
-func (s *grpcServer) fillDirectories(ctx context.Context, resp *pb.GetTreeResponse, dir *pb.Directory, errorPrefix string) error {
+//
+// `ancestors` holds the hashes of the directories on the path from the root
+// to `dir`: a (damaged) stored blob that refers back to one of them would
+// otherwise make this recurse until the stack overflows.
+func (s *grpcServer) fillDirectories(ctx context.Context, resp *pb.GetTreeResponse, dir *pb.Directory, errorPrefix string, ancestors map[string]struct{}) error {
+
+	// Stop working for a client that has gone away.
+	if err := ctx.Err(); err != nil {
+		return grpc_status.FromContextError(err).Err()
+	}
 
 	// Add this dir.
 	resp.Directories = append(resp.Directories, dir)
@@ -358,6 +368,12 @@ func (s *grpcServer) fillDirectories(ctx context.Context, resp *pb.GetTreeRespon
 		err := s.validateHash(dirNode.Digest.Hash, dirNode.Digest.SizeBytes, errorPrefix)
 		if err != nil {
 			return err
+		}
+
+		if _, cycle := ancestors[dirNode.Digest.Hash]; cycle {
+			s.accessLogger.Printf("GRPC GETTREEREQUEST BAD BLOB: %s refers to one of its ancestors",
+				dirNode.Digest.Hash)
+			continue
 		}
 
 		data, err := s.getBlobData(ctx, dirNode.Digest.Hash, dirNode.Digest.SizeBytes)
@@ -381,7 +397,9 @@ func (s *grpcServer) fillDirectories(ctx context.Context, resp *pb.GetTreeRespon
 		s.accessLogger.Printf("GRPC GETTREEREQUEST BLOB %s ADDED OK",
 			dirNode.Digest.Hash)
 
-		err = s.fillDirectories(ctx, resp, &dirMsg, errorPrefix)
+		ancestors[dirNode.Digest.Hash] = struct{}{}
+		err = s.fillDirectories(ctx, resp, &dirMsg, errorPrefix, ancestors)
+		delete(ancestors, dirNode.Digest.Hash)
 		if err != nil {
 			return err
 		}
